@@ -210,6 +210,46 @@ fn continuation(w: &mut W, per_op: Option<usize>) -> VResult<()> {
     Ok(())
 }
 
+pub const REFAULT: usize = 200;
+
+/// A fault that keeps coming back: every one of the next 64 key-adding calls has the first hash after
+/// the added key's own (the first element it relocates, while a resize is pending) panic again.  Each
+/// such call is judged like the first one (bounded loss, consistency); the resize must still make
+/// progress, so that the calls after the faults stop behave normally and nothing but the injected
+/// panics is ever raised.
+fn refault_trajectory(w: &mut W) -> VResult<()> {
+    for _ in 0..64 {
+        let op = Op::key(OpK::Insert, w.next_key);
+        let pre = w.r.clone();
+        let pre_next = w.next_key;
+        hasher::reset_counts();
+        hasher::arm(Cb::Hash, 2);
+        let r = w.apply_faulty(op);
+        let fired = !hasher::armed();
+        hasher::disarm();
+        match r {
+            Ok(Ok(_)) if !fired => {
+                w.audit(false)?;
+                continue;
+            }
+            Ok(Ok(_)) => {}
+            Ok(Err(v)) => return Err(v),
+            Err(msg) => {
+                if !msg.starts_with(FUSE_MSG) {
+                    return Err(Viol::new("panic", format!("in a key-adding call after repeated Hash panics: {}", msg)));
+                }
+            }
+        }
+        post_fault_oracle(w, op, Cb::Hash, &pre, pre_next)?;
+        w.r = w.m.iter().map(|(k, v)| (k.id(), v.id())).collect();
+        w.next_key = w.next_key.max(pre_next + 1);
+        w.deadline = None;
+        w.lazy_empty_ok = false;
+        w.audit(true)?;
+    }
+    Ok(())
+}
+
 /// One injected fault: returns Ok(true) if the fuse fired.
 fn inject(cfg: &crate::mapworld::Cfg, state: &[Op], op: Op, kind: Cb, i: u64, per_op: Option<usize>, steps: &mut u64) -> VResult<bool> {
     reset_exec();
@@ -252,6 +292,9 @@ fn inject(cfg: &crate::mapworld::Cfg, state: &[Op], op: Op, kind: Cb, i: u64, pe
         w.lazy_empty_ok = false;
         w.leaky = true;
         w.audit(true)?;
+        if per_op == Some(REFAULT) {
+            refault_trajectory(&mut w)?;
+        }
         continuation(&mut w, per_op)
     });
     match res {
@@ -276,6 +319,7 @@ pub fn run_e4(spec: &ShardSpec, cur: Option<&str>) -> Outcome {
     let part: usize = spec.extra.get("part").and_then(|s| s.parse().ok()).unwrap_or(0);
     let parts: usize = spec.extra.get("parts").and_then(|s| s.parse().ok()).unwrap_or(1);
     let per_op_cont = spec.extra.get("per_op_cont").map_or(false, |s| s == "1");
+    let refault = spec.extra.get("refault").map_or(false, |s| s == "1");
     let fam_alpha = spec.extra.get("fam_alpha").cloned().unwrap_or_else(|| "mut1+ch0+shape".to_string());
     let fam = build_family::<W>(&cfg, &fam_alpha, spec.n, cap, &mut out, cur);
     out.layers.push((fam.len() as u64, 0));
@@ -340,7 +384,10 @@ pub fn run_e4(spec: &ShardSpec, cur: Option<&str>) -> Outcome {
                         out.capped = Some(format!("time cap {}s", spec.max_secs));
                         break 'all;
                     }
-                    let conts: Vec<Option<usize>> = if per_op_cont { (0..14).map(Some).chain([None]).collect() } else { vec![None] };
+                    let mut conts: Vec<Option<usize>> = if per_op_cont { (0..14).map(Some).chain([None]).collect() } else { vec![None] };
+                    if refault && kind == Cb::Hash {
+                        conts.push(Some(REFAULT));
+                    }
                     for per_op in conts {
                         let mut hist = state.clone();
                         hist.push(Op::new(OpK::Clear, SEP_KEY, (kind as u64) | i << 8 | (per_op.map_or(255, |x| x as u64)) << 40));
